@@ -28,7 +28,8 @@ INPLACE = {"iadd", "isub", "imul", "ipow", "itruediv"}
 def FLOORS(tier):
     q = tier == "quick"
     f = {"expected-keyerror": 100 if q else 3000, "value-checks": 3000 if q else 10 ** 5,
-         "alias:self-operand": 60 if q else 2000, "operand:raw-dict": 300 if q else 10 ** 4, "typed-coefficients": 60, "division:exact-rational": 15}
+         "alias:self-operand": 60 if q else 2000, "operand:raw-dict": 300 if q else 10 ** 4, "typed-coefficients": 60, "division:exact-rational": 15,
+         "big-product:spin": 4, "big-product:bool": 4, "underflow-to-zero": 40}
     for o in OPS:
         for ts in TYPES.values():
             for t in ts:
@@ -57,7 +58,103 @@ def formal_overflow(kind, pa, pb, raw_b=None):
     return False
 
 
+def big_product(ctx, rng):
+    """dense operands (7-8 variables, 70-200 terms each): products with thousands of term pairs, compared exactly"""
+    kind = rng.choice(["bool", "spin"])
+    tn = rng.choice([t for t in TYPES[kind] if not L.is_deg2(getattr(L, t))])
+    T = getattr(L, tn)
+    n = rng.choice([7, 8])
+    labs = list(range(n)) if L.is_matrix(T) else (gen.labels(rng, 6) + ["y6", "y7"])[:n]
+
+    def dense():
+        terms = {}
+        for mask in range(1 << n):
+            if rng.random() < 0.55:
+                terms[tuple(labs[j] for j in range(n) if (mask >> j) & 1)] = rng.choice([-2, -1, 1, 2, 3, -3])
+        return terms
+    ta, tb = dense(), dense()
+    a, b = gen.model_of(T, ta), gen.model_of(T, tb)
+    pa, pb = ref.from_raw(kind, ta), ref.from_raw(kind, tb)
+    op = rng.choice(["mul", "imul", "rmul-dict", "pow"])
+    w = {"kind": kind, "type": tn, "operation": op, "terms_a": len(ta), "terms_b": len(tb), "term_pairs": len(ta) * len(tb), "a": ta, "b": tb}
+    snap_a, snap_b = dict(a), dict(b)
+    if op == "mul":
+        ok, r = ctx.call("mul", lambda: a * b, _w=w)
+        exp = pa * pb
+    elif op == "imul":
+        def f():
+            c = a.copy()
+            c *= dict(tb)
+            return c
+        ok, r = ctx.call("imul", f, _w=w)
+        exp = pa * pb
+    elif op == "rmul-dict":
+        ok, r = ctx.call("rmul", lambda: dict(tb) * a, _w=w)
+        exp = pa * pb
+    else:
+        ok, r = ctx.call("pow", lambda: a ** 2, _w=w)
+        exp = pa * pa
+    if not ok:
+        return
+    ctx.cat("big-product:" + kind)
+    ctx.count("big-product-term-pairs", len(ta) * (len(ta) if op == "pow" else len(tb)))
+    if dict(a) != snap_a or dict(b) != snap_b:
+        ctx.violation(op + ":operand-mutated:big-product", "an operand of a large product changed", w)
+        return
+    if type(r) is not T:
+        ctx.violation(op + ":result-type:big-product", "%s gave %s" % (tn, type(r).__name__), w)
+        return
+    got = ref.from_raw(kind, dict(r))
+    if got != exp:
+        bad = [k for k in set(got.d) | set(exp.d) if got.d.get(k) != exp.d.get(k)][:3]
+        ctx.violation(op + ":wrong-result:big-product", "%d x %d terms: %d coefficients differ, e.g. %r" % (
+            len(ta), len(tb), len([k for k in set(got.d) | set(exp.d) if got.d.get(k) != exp.d.get(k)]),
+            [(sorted(k, key=repr), float(got.d.get(k, 0)), float(exp.d.get(k, 0))) for k in bad]), w)
+        return
+    ctx.nontrivial(("big-product", kind, tn, op, sorted(ta.items(), key=repr)[:5], sorted(tb.items(), key=repr)[:5]))
+
+
+def tiny_quotient(ctx, rng):
+    """coefficients at the bottom of the double range: a quotient / product that underflows to exactly 0 is simply no term"""
+    kind = rng.choice(["bool", "spin"])
+    tn = rng.choice(TYPES[kind])
+    T = getattr(L, tn)
+    labs = gen.labels(rng, 3, matrix=L.is_matrix(T))
+    terms = {(labs[0],): 5e-324, (labs[0], labs[1]): 1.0, (): rng.choice([5e-324, 2.0])}
+    if rng.random() < 0.5:
+        terms[(labs[1],)] = -5e-324
+    a = gen.model_of(T, terms)
+    op = rng.choice(["truediv", "itruediv", "mul", "imul"])
+    c = rng.choice([4.0, 1e300, 8]) if "div" in op else rng.choice([0.25, 1e-300])
+    w = {"kind": kind, "type": tn, "terms": terms, "operation": op, "scalar": c}
+
+    def f():
+        if op == "truediv":
+            return a / c
+        if op == "mul":
+            return a * c
+        b = a.copy()
+        if op == "itruediv":
+            b /= c
+        else:
+            b *= c
+        return b
+    ok, r = ctx.call(op, f, _w=w)
+    if not ok:
+        return
+    ctx.cat("underflow-to-zero")
+    exp = {k: ((v / c) if "div" in op else (v * c)) for k, v in terms.items()}
+    exp = {k: v for k, v in exp.items() if v}
+    if any(not v for v in r.values()) or ref.from_raw(kind, dict(r)) != ref.from_raw(kind, exp):
+        ctx.violation(op + ":wrong-result:underflow", "got %r expected %r" % (dict(r), exp), w)
+
+
 def case(ctx, rng, idx):
+    r0 = rng.random()
+    if r0 < 0.004:
+        return big_product(ctx, rng)
+    if r0 < 0.02:
+        return tiny_quotient(ctx, rng)
     kind = rng.choice(["bool", "spin"])
     tnames = TYPES[kind]
     pool, refs, desc0 = [], [], []
